@@ -22,6 +22,7 @@ type Config struct {
 	Mode         term.Mode
 	Solver       string
 	Solver2      string // optional cross-check solver for assertion queries
+	SolverAlt    string // one-shot modes: asked when the primary solver answers unknown
 	TimeoutMs    int
 	Workers      int
 	WallS        int // wall budget per harness
@@ -30,6 +31,8 @@ type Config struct {
 	FuncStubs    map[string]string // function (full name) -> harness function of the same signature that replaces it
 	LoopBound    int // merge-mode unrolling bound
 	Verbose      bool
+	OneShot      bool // decide assertion queries in a fresh solver process (full tactic pipeline)
+	OneShotAll   bool // decide every query (branches too) in a fresh solver process
 	Thorough     bool
 	Concrete     map[string]string // when set: nondet values are taken from here (concrete run)
 }
@@ -105,6 +108,7 @@ type session struct {
 	vars   []*term.T
 	seenUF map[string]bool
 	nCheck int
+	fresh  func(script string) solver.Result // when set, every query runs in a fresh process
 }
 
 func newSession(kind string, mode term.Mode, timeoutMs int) (*session, error) {
@@ -226,10 +230,11 @@ func (ss *session) assert(t *term.T) {
 // check asks whether the path condition together with t is satisfiable.
 func (ss *session) check(t *term.T) solver.Result {
 	ss.nCheck++
-	if t == nil {
-		return ss.s.Check("")
-	}
-	if t.IsTrue() {
+	if t == nil || t.IsTrue() {
+		if ss.fresh != nil {
+			ss.s.Queries++
+			return ss.fresh(ss.script.String() + "(check-sat)\n")
+		}
 		return ss.s.Check("")
 	}
 	if t.IsFalse() {
@@ -242,6 +247,10 @@ func (ss *session) check(t *term.T) solver.Result {
 	if d := os.Getenv("VERIF_DUMP"); d != "" {
 		os.MkdirAll(d, 0o755)
 		os.WriteFile(fmt.Sprintf("%s/q%d_%d.smt2", d, os.Getpid(), ss.nCheck), []byte(ss.script.String()+"(assert "+ref+")\n(check-sat)\n"), 0o644)
+	}
+	if ss.fresh != nil {
+		ss.s.Queries++
+		return ss.fresh(ss.script.String() + "(assert " + ref + ")\n(check-sat)\n")
 	}
 	if t.Op == term.Var || strings.HasPrefix(ref, "t") {
 		return ss.s.Check(ref)
@@ -483,6 +492,13 @@ func (i *interp) currentModel() (map[string]string, bool) {
 	if i.cfg.Concrete != nil {
 		return i.cfg.Concrete, true
 	}
+	if i.cfg.OneShotAll {
+		r, m := p.h.eng.oneShot(p.sess, i.ctx.True(), i.cfg)
+		if r != solver.Sat || m == nil {
+			return nil, false
+		}
+		return p.vector(m), true
+	}
 	if r := p.sess.check(nil); r != solver.Sat {
 		return nil, false
 	}
@@ -504,7 +520,10 @@ func (i *interp) verifAssert(cond *term.T, label string) {
 	}
 	neg := c.NotB(cond)
 	var r solver.Result
-	if neg.IsTrue() {
+	var oneShotModel map[string]*big.Int
+	if i.cfg.OneShot && !neg.IsTrue() && i.cfg.Concrete == nil {
+		r, oneShotModel = p.h.eng.oneShot(p.sess, neg, i.cfg)
+	} else if neg.IsTrue() {
 		r = p.sess.check(nil)
 	} else {
 		r = p.sess.check(neg)
@@ -520,7 +539,9 @@ func (i *interp) verifAssert(cond *term.T, label string) {
 		p.h.noteDischarged(false)
 	case solver.Sat:
 		var vec map[string]string
-		if neg.IsTrue() {
+		if oneShotModel != nil {
+			vec = p.vector(oneShotModel)
+		} else if neg.IsTrue() {
 			m, err := p.sess.model()
 			if err == nil {
 				vec = p.vector(m)
